@@ -30,15 +30,25 @@ type Ev struct {
 	Seq  int64
 	Kind EvKind
 	End  int
-	Pkt  []byte
+	Pkt  []byte // the packet; in the stored log only the first logKeep bytes of large packets
+	Len  int    // full packet length
 	WSeq int64
 	Tag  string
 	ID   int64
+
+	stored []byte // emit-internal: the log's copy made at EvWrite time
 }
+
+// logKeep: packets up to this size are logged completely; of larger ones
+// (bulk data) the log keeps this many leading bytes (all header fields) and Len.
+const logKeep = 320
 
 func (e Ev) String() string {
 	switch e.Kind {
 	case EvWrite, EvRead:
+		if e.Len > len(e.Pkt) {
+			return fmt.Sprintf("#%d %c end%d %s", e.Seq, e.Kind, e.End, describeTruncated(e.Pkt, e.Len))
+		}
 		return fmt.Sprintf("#%d %c end%d %s", e.Seq, e.Kind, e.End, Describe(e.Pkt))
 	case EvMark:
 		return fmt.Sprintf("#%d M end%d %s id=%d", e.Seq, e.End, e.Tag, e.ID)
@@ -60,7 +70,6 @@ type Pipe struct {
 	closed   bool
 	closedBy int
 	log      []Ev
-	keepLog  bool
 	// Observe, if set, is called under the pipe mutex for every event, in log
 	// order. It must not call back into the pipe.
 	Observe func(ev *Ev)
@@ -78,7 +87,7 @@ var errPipeClosed = errors.New("harness pipe: closed")
 // NewPipe makes a pipe whose queues hold up to capacity packets per direction
 // (writers block beyond that, like a socket buffer).
 func NewPipe(capacity int) *Pipe {
-	p := &Pipe{cap: capacity, keepLog: true, closedBy: -1}
+	p := &Pipe{cap: capacity, closedBy: -1}
 	p.cond = sync.NewCond(&p.mu)
 	p.ends[0] = &End{p, 0}
 	p.ends[1] = &End{p, 1}
@@ -87,22 +96,47 @@ func NewPipe(capacity int) *Pipe {
 
 func (p *Pipe) End(i int) *End { return p.ends[i] }
 
+// emit logs ev (whose Pkt, if any, is the complete packet: Observe sees it in
+// full) and stores a private copy of at most logKeep bytes.
 func (p *Pipe) emit(ev Ev) int64 {
 	ev.Seq = int64(len(p.log))
-	if !p.keepLog {
-		// keep sequence numbers but not the packets
-		p.log = append(p.log, Ev{Seq: ev.Seq, Kind: ev.Kind, End: ev.End})
-	} else {
-		p.log = append(p.log, ev)
-	}
+	ev.Len = len(ev.Pkt)
 	if p.Observe != nil {
 		p.Observe(&ev)
 	}
+	if ev.Pkt != nil {
+		k := len(ev.Pkt)
+		if k > logKeep {
+			k = logKeep
+		}
+		if ev.Kind == EvRead && ev.stored != nil {
+			ev.Pkt = ev.stored // share the copy made for the EvWrite entry
+		} else {
+			ev.Pkt = append(make([]byte, 0, k), ev.Pkt[:k]...)
+		}
+	}
+	ev.stored = nil
+	p.log = append(p.log, ev)
 	return ev.Seq
 }
 
-// WritePacket copies packet (callers reuse their buffers) and queues it.
+// WritePacket copies packet (callers such as the mux reuse their buffers) and
+// queues the copy; the reader receives that copy, so every ReadPacket returns
+// a fresh slice nobody else holds.
 func (e *End) WritePacket(packet []byte) error {
+	return e.write(append([]byte(nil), packet...))
+}
+
+// WriteOwned is WritePacket for harness senders that hand over ownership of
+// packet (no copy).
+func (e *End) WriteOwned(packet []byte) error { _, err := e.writeSeq(packet); return err }
+
+// WriteSeq is WriteOwned returning the log sequence number of the write.
+func (e *End) WriteSeq(packet []byte) (int64, error) { return e.writeSeq(packet) }
+
+func (e *End) write(cp []byte) error { _, err := e.writeSeq(cp); return err }
+
+func (e *End) writeSeq(cp []byte) (int64, error) {
 	p := e.p
 	p.mu.Lock()
 	defer p.mu.Unlock()
@@ -111,13 +145,12 @@ func (e *End) WritePacket(packet []byte) error {
 		p.cond.Wait()
 	}
 	if p.closed {
-		return errPipeClosed
+		return -1, errPipeClosed
 	}
-	cp := append([]byte(nil), packet...)
 	seq := p.emit(Ev{Kind: EvWrite, End: e.id, Pkt: cp})
 	p.q[o] = append(p.q[o], qitem{cp, seq})
 	p.cond.Broadcast()
-	return nil
+	return seq, nil
 }
 
 // ReadPacket returns the next packet as a fresh slice, or io.EOF once the
@@ -135,9 +168,9 @@ func (e *End) ReadPacket() ([]byte, error) {
 			it := p.q[e.id][0]
 			p.q[e.id][0] = qitem{}
 			p.q[e.id] = p.q[e.id][1:]
-			p.emit(Ev{Kind: EvRead, End: e.id, Pkt: it.pkt, WSeq: it.wseq})
+			p.emit(Ev{Kind: EvRead, End: e.id, Pkt: it.pkt, WSeq: it.wseq, stored: p.log[it.wseq].Pkt})
 			p.cond.Broadcast()
-			return append([]byte(nil), it.pkt...), nil
+			return it.pkt, nil
 		}
 		if p.closed {
 			break
